@@ -290,6 +290,7 @@ void lltdLoop (void *data){
 
         // Derive session event from the received frame
         int sess_event = derive_session_event(currentNetworkInterface->recvBuffer,
+                                              (size_t)recvLen,
                                               currentNetworkInterface->sessionTable,
                                               currentNetworkInterface->macAddress);
 
